@@ -45,6 +45,8 @@ class ClassInfo:
         self.base_exprs = node.bases
         self.bases = []          # ClassInfo | str (external dotted)
         self.attrs = {}          # class-level assignments name -> ast expr
+        self.ann_fields = []     # annotated field names in order (dataclass / NamedTuple style)
+        self.decorators = [ast.unparse(d) for d in node.decorator_list]
         self.methods = {}        # name -> FuncInfo
         self.mro = None
 
@@ -158,8 +160,10 @@ class Program:
                         for t in cst.targets:
                             if isinstance(t, ast.Name):
                                 ci.attrs[t.id] = cst.value
-                    elif isinstance(cst, ast.AnnAssign) and isinstance(cst.target, ast.Name) and cst.value:
-                        ci.attrs[cst.target.id] = cst.value
+                    elif isinstance(cst, ast.AnnAssign) and isinstance(cst.target, ast.Name):
+                        ci.ann_fields.append(cst.target.id)
+                        if cst.value:
+                            ci.attrs[cst.target.id] = cst.value
             elif isinstance(st, ast.Import):
                 for a in st.names:
                     if a.asname:
